@@ -147,3 +147,102 @@ Lemma sview_close inf t : In t [tt_CloseParenToken; tt_CloseBracketToken; tt_Col
 Proof.
   cbn [In]. intros [H|[H|[H|[]]]]; subst t; destruct inf; vm_compute; reflexivity.
 Qed.
+
+(* ---- facts that mention the token itself, and facts about pairs of arms ------------------------------------------ *)
+
+Lemma sview_sweep_t (chk : Z -> sarm -> bool) :
+  (forall t, chk t ANone = true) ->
+  forallb (fun t => chk t (sview true t) && chk t (sview false t)) suffix_tokens = true ->
+  forall inf t, chk t (sview inf t) = true.
+Proof.
+  intros H0 H inf t. destruct (sview_none_or_in inf t) as [E|Hin]; [rewrite E; apply H0|].
+  rewrite forallb_forall in H. specialize (H t Hin). apply andb_true_iff in H. destruct H as [H1 H2].
+  destruct inf; assumption.
+Qed.
+
+Lemma sview_comma_tok inf t pL pS pN : sview inf t = AComma pL pS pN -> t = tt_CommaToken.
+Proof.
+  intros H.
+  pose proof (sview_sweep_t (fun t v => match v with AComma _ _ _ => t =? tt_CommaToken | _ => true end)) as S.
+  specialize (S (fun _ => eq_refl) ltac:(vm_compute; reflexivity) inf t). rewrite H in S. apply Z.eqb_eq in S. exact S.
+Qed.
+
+(* the right-open level of a tree whose top is the binary operator op, and its own level *)
+Definition open_of (op : Z) : option (Z * Z) :=
+  match sview true op with ABin _ _ _ pS pN => Some (pS, pN) | _ => None end.
+
+(* if the arm of t accepts a left operand of level n, it returns when called at the right-open level s *)
+Definition compat (s n : Z) (v : sarm) : bool := implb (left_ok v n) (ret_view v false s).
+
+Lemma compat_binary :
+  forall op inf t, match open_of op with Some (s, n) => compat s n (sview inf t) = true | None => True end.
+Proof.
+  intros op inf t. unfold open_of. destruct (sview_none_or_in true op) as [E|Hin].
+  { rewrite E. exact I. }
+  assert (H : forallb (fun op => forallb (fun t =>
+              match open_of op with
+              | Some (s, n) => compat s n (sview true t) && compat s n (sview false t)
+              | None => true end) suffix_tokens) suffix_tokens = true) by (vm_compute; reflexivity).
+  rewrite forallb_forall in H. specialize (H op Hin). rewrite forallb_forall in H.
+  fold (open_of op). destruct (open_of op) as [[s n]|] eqn:Eo; [|exact I].
+  destruct (sview_none_or_in inf t) as [E|Hin2].
+  { rewrite E. unfold compat. cbn. reflexivity. }
+  specialize (H t Hin2). apply andb_true_iff in H. destruct H as [H1 H2]. destruct inf; assumption.
+Qed.
+
+Lemma compat_fixed s n :
+  forallb (fun t => compat s n (sview true t) && compat s n (sview false t)) suffix_tokens = true ->
+  forall inf t, compat s n (sview inf t) = true.
+Proof. intros H. apply (sview_sweep (compat s n)); [reflexivity|exact H]. Qed.
+
+Lemma compat_unary : forall inf t, compat prec_OpUnary prec_OpUnary (sview inf t) = true.
+Proof. apply compat_fixed. vm_compute. reflexivity. Qed.
+Lemma compat_cond : forall inf t, compat prec_OpAssign prec_OpAssign (sview inf t) = true.
+Proof. apply compat_fixed. vm_compute. reflexivity. Qed.
+Lemma compat_comma : forall inf t, compat prec_OpAssign prec_OpExpr (sview inf t) = true.
+Proof. apply compat_fixed. vm_compute. reflexivity. Qed.
+
+Lemma ret_view_lt v p : ret_view v false p = true -> forall l, ret_view v l p = true.
+Proof. destruct v; cbn [ret_view]; intros H l; try assumption. cbn [orb] in H. rewrite H. apply orb_true_r. Qed.
+
+(* a left operand accepted by the arm of k is closed off by k *)
+Lemma rcond_left inf k x r : left_ok (sview inf (ty k)) (lvl x) = true -> rcond inf x (k :: r).
+Proof.
+  intros H. unfold rcond.
+  assert (G : forall s n, rlevel x = Some s -> lvl x = n -> compat s n (sview inf (ty k)) = true ->
+              ncont inf s (k :: r) = true).
+  { intros s n _ En Hc. cbn [ncont]. apply ret_view_lt. unfold compat in Hc. rewrite <- En, H in Hc. exact Hc. }
+  destruct x; cbn [rlevel]; try exact I.
+  - (* unary *)
+    destruct (is_postfix_op op) eqn:Ep; [exact I|].
+    apply (G _ prec_OpUnary); [cbn [rlevel]; rewrite Ep; reflexivity|cbn [lvl]; rewrite Ep; reflexivity|apply compat_unary].
+  - (* binary *)
+    pose proof (compat_binary op inf (ty k)) as C. unfold open_of in C.
+    destruct (sview true op) eqn:Ev; try exact I.
+    apply (G _ pN); [cbn [rlevel]; rewrite Ev; reflexivity|cbn [lvl]; unfold bin_level; rewrite Ev; reflexivity|exact C].
+  - apply (G _ prec_OpAssign); [reflexivity|reflexivity|apply compat_cond].
+  - apply (G _ prec_OpExpr); [reflexivity|reflexivity|apply compat_comma].
+Qed.
+
+(* the right-open level is not below the level of the node *)
+Lemma rlevel_ge_lvl t p : rlevel t = Some p -> lvl t <= p.
+Proof.
+  pose proof prec_order as PO.
+  destruct t; cbn [rlevel lvl]; try discriminate.
+  - destruct (is_postfix_op op); [discriminate|]. intros HH; inversion HH. lia.
+  - unfold bin_level. pose proof (sfact_all true op) as SF. destruct (sview true op); try discriminate.
+    cbn [sfact] in SF. b2p. intros HH; inversion HH. lia.
+  - intros HH; inversion HH. lia.
+  - intros HH; inversion HH. lia.
+Qed.
+
+Lemma rlevel_ge_assign t p : rlevel t = Some p -> prec_OpAssign <= p.
+Proof.
+  pose proof prec_order as PO.
+  destruct t; cbn [rlevel]; try discriminate.
+  - destruct (is_postfix_op op); [discriminate|]. intros HH; inversion HH. lia.
+  - pose proof (sfact_all true op) as SF. destruct (sview true op); try discriminate.
+    cbn [sfact] in SF. b2p. intros HH; inversion HH. lia.
+  - intros HH; inversion HH. lia.
+  - intros HH; inversion HH. lia.
+Qed.
